@@ -126,7 +126,16 @@ def mk_assume(mode, nloop_hint=None):
                     ps0, pn0 = time_parts(ex, st, pv0)
                     st.pc.append(s_ * 1000000000 + n_ >= ps0 * 1000000000 + pn0)
             return
-        if base == 'parse_json_response' and mode == 'loop':
+        if short == 'now_in_monotonic' and mode in ('loop', 'tail'):
+            # monotonic clock does not run backwards inside one check (arbitrary clocks: C14's exploration)
+            from models import time_parts
+            prev = [e for e in st.trace[:-1] if e.kind == 'env' and e.name.endswith('now_in_monotonic')]
+            if prev:
+                s_, n_ = time_parts(ex, st, val)
+                ps, pn = time_parts(ex, st, Tree({}, prev[-1].out, 'std::time::Instant'))
+                st.pc.append(s_ * 1000000000 + n_ >= ps * 1000000000 + pn)
+            return
+        if base == 'parse_json_response' and mode in ('loop', 'loop-anyclock'):
             st.pc.append(ex.discr_of(st, val, ty).t == 1)     # cut the tail short: unparseable body
             return
     return assume
@@ -352,13 +361,19 @@ def monitor_attempt_loop(chk, tier):
     if maxatt != 3 or nforged == 0:
         D.failed = D.failed or ('inconclusive', 'vacuous: max attempts %d, forged paths %d' % (maxatt, nforged), None, None)
     out = {}
+    import conform
+    ok, badc = conform.validate_sample(chk, ex, res, 1, k=16, label='attempt-loop')
     for name, d in Ds.items():
         f = d.done()
         if f and f[0] == 'violated':
             d.ob.key = name
             st = f[3]
             d.ob.cex = {'path': story(ex, st) if st is not None else None}
+            conform.confirm(chk, d, ex, 1)
         out[name] = d
+    if badc and not any(d.failed for d in Ds.values()):
+        D.ob.status = 'inconclusive'
+        D.ob.detail = 'engine/real-code disagreement on a replayed path: %s' % badc[0]['detail']
     chk.absorb(ex)
     return out
 
